@@ -22,7 +22,7 @@ pub fn info() -> PropInfo {
     PropInfo {
         id: "C06",
         level: "exploration",
-        rule: "Programs are lists of call-frame instructions assembled by gen/cfi.rs into a one-CIE one-FDE .debug_frame or .eh_frame section (byte order, address size 1/2/4/8, 32/64-bit entries, CIE version 1/3/4 and storage type vary with the case index) and interpreted by model/cfi.rs. Streams: `exh` = every sequence of length <= 4 over a 16-instruction alphabet x every CIE/FDE split x 5 alignment-factor pairs (rel: all 1 724 325 programs; dbg: length <= 3 fully and a seed-chosen 1/32 slice of length 4); `opc` = every opcode byte 0x00-0xff x 96 operand/context variants (boundary operands, CIE or FDE placement, expression-CFA / remembered-state prefixes, both vendors, set_loc under every 'R' pointer encoding); `raw` = truncated / over-long operands; `cap` = programs that reach exactly N-1, N and N+1 rules / rows for each of 9 storages (incl. initial-rule copy row, remembers in the CIE, pops past the minimum); `rand` = seeded random programs of up to 300 instructions. A case is non-trivial when the model executes at least one instruction; enumerated cases are distinct by construction (index <-> program bijection), random ones are de-duplicated by (config, section bytes) digest.",
+        rule: "Programs are lists of call-frame instructions assembled by gen/cfi.rs into a one-CIE one-FDE .debug_frame or .eh_frame section (byte order, address size 1/2/4/8, 32/64-bit entries, CIE version 1/3/4 and storage type vary with the case index) and interpreted by model/cfi.rs. Streams: `exh` = every sequence of length <= 4 over a 16-instruction alphabet x every CIE/FDE split x 5 alignment-factor pairs (rel: all 1 724 325 programs; dbg: length <= 3 fully and a seed-chosen 1/32 slice of length 4, 1/4 in the thorough tier); `opc` = every opcode byte 0x00-0xff x 96 operand/context variants (boundary operands, CIE or FDE placement, expression-CFA / remembered-state prefixes, both vendors, set_loc under every 'R' pointer encoding); `raw` = truncated / over-long operands; `cap` = programs that reach exactly N-1, N and N+1 rules / rows for each of 9 storages (incl. initial-rule copy row, remembers in the CIE, pops past the minimum); `rand` = seeded random programs of up to 300 instructions. A case is non-trivial when the model executes at least one instruction; enumerated cases are distinct by construction (index <-> program bijection), random ones are de-duplicated by (config, section bytes) digest.",
         assumptions: &[
             "storage capacities (StoreOnHeap: 4 rows / 192 rules; custom storages: their array sizes; Vec: unlimited) and the rule 'rows used = 1 + remembered + (1 if the CIE leaves >= 2 initial rules)' are taken from the pinned tree; only 'success iff the model's need fits, the specific error otherwise' is judged",
             "advance_loc/set_loc inside CIE initial instructions are interpreted like in an FDE starting at address 0 with the rows discarded (the standard is silent)",
@@ -645,7 +645,9 @@ pub fn alphabet() -> Vec<Ins> {
 fn exhaustive(ctx: &mut Ctx) {
     let alpha = alphabet();
     let dbg = ctx.dbg() || ctx.slow();
-    let slice = ctx.seed % 32;
+    // dbg profile: a seed-chosen 1/32 slice of the length-4 programs (1/4 in the thorough tier)
+    let slice_div: u64 = if ctx.quick() { 32 } else { 4 };
+    let slice = ctx.seed % slice_div;
     let mut idx = 0u64;
     for len in 0..=4usize {
         let nseq = 16u64.pow(len as u32);
@@ -654,7 +656,7 @@ fn exhaustive(ctx: &mut Ctx) {
                 for (fi, (ca, da)) in FACTORS.iter().enumerate() {
                     let i = idx;
                     idx += 1;
-                    if dbg && len == 4 && (s * 5 + split as u64) % 32 != slice {
+                    if dbg && len == 4 && (s * 5 + split as u64) % slice_div != slice {
                         continue;
                     }
                     if !ctx.want("exh", i) {
